@@ -9,7 +9,6 @@ import (
 	"encoding/base64"
 	"encoding/hex"
 	"fmt"
-	"io"
 	"io/fs"
 	"math/rand"
 	"os"
@@ -84,7 +83,6 @@ type entry struct {
 	Type byte
 	Data []byte
 	Link string
-	Lie  int64 // header size = len(Data)+Lie when non-zero (raw writer)
 }
 
 func hostileName(rng *rand.Rand) string {
@@ -454,7 +452,7 @@ func runTraceSourceCase(c *kit.Case, r *kit.R) {
 
 // zeroTarGz streams a tar.gz with n regular entries of size bytes each (zeros)
 // without holding the payload in memory.
-func zeroTarGz(sizes []int64, lieTotal bool) []byte {
+func zeroTarGz(sizes []int64) []byte {
 	var buf bytes.Buffer
 	zw := gzip.NewWriter(&buf)
 	tw := tar.NewWriter(zw)
@@ -529,7 +527,7 @@ func runBig(b kit.Batch, r *kit.R) {
 	r.ForEach(b.N, func(c *kit.Case) {
 		bc := cases[c.Index%len(cases)]
 		c.Desc(map[string]any{"kind": "oversized archive", "archive": bc.name})
-		arch := zeroTarGz(bc.sizes, false)
+		arch := zeroTarGz(bc.sizes)
 		files, err := sourcefs.ReadArchive(arch)
 		r.Count("oversized_archives_read", 1)
 		r.Max("max_compressed_archive_bytes", int64(len(arch)))
@@ -561,5 +559,3 @@ func runBig(b kit.Batch, r *kit.R) {
 		c.Sample(map[string]any{"archive": bc.name, "compressed_bytes": len(arch), "error": fmt.Sprint(err), "peak_rss_mib": hwm >> 20})
 	})
 }
-
-var _ = io.EOF
